@@ -748,6 +748,16 @@ def c09(obs: Observer):
                         obs.tag('resent-group-bunch-answered-400')
                         return None
                     return (f're-sent-{ws[0]}-answered-differently', f're-sending the accepted bunch `{obs.op}` answered {obs.ans}')
+    # client_ids_agree: the ids a client derives from the answer (update id, first job id, first group id of the update; absolute id of
+    # its k-th job = start + k - 1, hailtop.batch_client.aioclient) are the ids of the rows — on the first send and on every re-send
+    if ws[0] == 'createUpdate' and obs.ans.startswith('ok'):
+        a = obs.ans.split()
+        row = v.updates.get((int(ws[1]), int(a[1]))) if len(a) == 4 else None
+        if row is None or [row['start_job_id'], row['start_job_group_id']] != [int(a[2]), int(a[3])] or row['token'] != f'utok{ws[2]}':
+            return ('client-ids-disagree', f'`{obs.op}` answered {obs.ans} (update, first job id, first group id); the update row of that token is '
+                                           f'{ {k: row[k] for k in ("update_id", "start_job_id", "start_job_group_id", "token")} if row else None}')
+        if row['n_jobs'] and row['n_job_groups'] and row['start_job_id'] != row['start_job_group_id']:
+            obs.tag('update-with-different-start-ids' + (':resent' if earlier else ''))
     per: Dict[int, List[dict]] = {}
     for (b, u), r in v.updates.items():
         per.setdefault(b, []).append(r)
